@@ -1520,12 +1520,18 @@ def _site_facts(repo: Repo, f: FuncInfo, node: ast.AST, other: str, assume_not_n
     facts = [_guard(f, node)]
     others = {other}
     if not isinstance(f.node, ast.Lambda):
+        base, _, field_path = other.partition(".")
         sel = _selected_from(repo, f, other)
+        selected_var = other
+        if sel is None and field_path and base.isidentifier():
+            # a field of the selected element: `alias = next(a for a in aliases if name == a.module or ..)` ... `name[len(alias.module):]`
+            sel = _selected_from(repo, f, base)
+            selected_var = base
         if sel is not None:
             v, conds_, maybe_none = sel
-            others.add(v)
+            others.add(v if selected_var == other else f"{v}.{field_path}")
             held = f_and([to_formula(cond, copy_prop(f)) for cond in conds_])
-            facts.append(f_or([mk(f"{other} is None"), held]) if maybe_none and not assume_not_none else held)
+            facts.append(f_or([mk(f"{selected_var} is None"), held]) if maybe_none and not assume_not_none else held)
     return f_and(facts), others
 
 
@@ -2006,8 +2012,9 @@ def _positions_of(repo: Repo, f: FuncInfo, node: ast.AST, var: str, tgt: ast.exp
         for a in atoms_of(facts):
             e = _parse_atom(a)
             if isinstance(e, ast.Compare) and len(e.ops) == 1 and isinstance(e.ops[0], ast.Eq):
-                sides = {norm(e.left), norm(e.comparators[0])}
-                if "'.'" in sides and (sides & ({char_var} if char_var else set()) or f"{hay}[{var}]" in sides):
+                pair = [e.left, e.comparators[0]]
+                sides = {norm(x) for x in pair}
+                if any(_char_value(repo, f, x) == "." for x in pair) and (sides & ({char_var} if char_var else set()) or f"{hay}[{var}]" in sides):
                     good.append(mk(a))
         try:
             if good and off in (0, 1) and implies(facts, f_or(good)):
@@ -2172,7 +2179,10 @@ def _separator_positions_of(repo: Repo, f: FuncInfo, e: ast.expr, hay: str, dept
         g = e.generators[0]
         if isinstance(g.iter, ast.Call) and _call_name(g.iter) == "enumerate" and g.iter.args and _canon(repo, f, g.iter.args[0]) == hay and isinstance(g.target, ast.Tuple) and len(g.target.elts) == 2 and all(isinstance(x, ast.Name) for x in g.target.elts) and g.target.elts[0].id == e.elt.id:
             ch = g.target.elts[1].id
-            return any(isinstance(c, ast.Compare) and len(c.ops) == 1 and isinstance(c.ops[0], ast.Eq) and {norm(c.left), norm(c.comparators[0])} == {ch, "'.'"} for c in g.ifs)
+            return any(
+                isinstance(c, ast.Compare) and len(c.ops) == 1 and isinstance(c.ops[0], ast.Eq) and any(isinstance(x, ast.Name) and x.id == ch for x in (c.left, c.comparators[0])) and any(_char_value(repo, f, x) == "." for x in (c.left, c.comparators[0]))
+                for c in g.ifs
+            )
         return False
     if isinstance(e, ast.Name):
         d = local_defs(repo, f).get(e.id)
@@ -3194,8 +3204,10 @@ def _char_prefix_sites(repo: Repo, f: FuncInfo, loop: ast.For, char: str, it: as
                 good = []
                 for a in atoms_of(facts):
                     e = _parse_atom(a)
-                    if isinstance(e, ast.Compare) and len(e.ops) == 1 and isinstance(e.ops[0], ast.Eq) and {norm(e.left), norm(e.comparators[0])} == {char, "'.'"}:
-                        good.append(mk(a))
+                    if isinstance(e, ast.Compare) and len(e.ops) == 1 and isinstance(e.ops[0], ast.Eq):
+                        sides = [e.left, e.comparators[0]]
+                        if any(isinstance(x, ast.Name) and x.id == char for x in sides) and any(_char_value(repo, f, x) == "." for x in sides if not (isinstance(x, ast.Name) and x.id == char)):
+                            good.append(mk(a))
                 try:
                     ok = bool(good) and implies(facts, f_or(good))
                 except AnalysisError:
@@ -3541,6 +3553,8 @@ def _scan(repo: Repo) -> list[Site]:
                         if isinstance(c, ast.Compare) and len(c.ops) == 1 and any(isinstance(x, ast.Name) and x.id == tgt.id for x in (c.left, c.comparators[0])):
                             other = c.comparators[0] if isinstance(c.left, ast.Name) and c.left.id == tgt.id else c.left
                             k = _const_str(other)
+                            if k is None and isinstance(other, (ast.Name, ast.Attribute)):
+                                k = _char_value(repo, f, other) or (_attr_constant(repo, T, f, other) if isinstance(other, ast.Attribute) else None)
                             if k is None and isinstance(other, (ast.Tuple, ast.List, ast.Set)) and all(_const_str(x) is not None for x in other.elts):
                                 k = "".join(sorted({_const_str(x) for x in other.elts}))
                             if k is None:
